@@ -68,7 +68,8 @@ def run_unit(unit, text, extra_args=(), workdir=None, threads=8):
                 diags.append(json.loads(line))
             except Exception:
                 pass
-    errs = [dg for dg in diags if dg.get('level') == 'error']
+    ignore = getattr(unit, 'ignore_errors', ())
+    errs = [dg for dg in diags if dg.get('level') == 'error' and not any(x in dg.get('message', '') for x in ignore)]
     if j is None or 'verification-results' not in j:
         msgs = '; '.join(dg.get('message', '') for dg in errs[:5]) or p.stderr[-2000:]
         res.undecided = 'verus did not complete (front-end error): ' + msgs
